@@ -34,6 +34,12 @@ def alphabet(pool, cfg, history):
     for x in (OPS.D0, OPS.S0, OPS.S2, OPS.P0):
         for _, v in ID_ATOMS:
             ops.append(["new_id", x, v])
+    for x in range(9, min(len(pool), 13)):       # objects created by the history
+        if OPS.kind(pool[x]) in "SP":
+            for nm in (None, ""):
+                op = ["rename", x, nm]
+                if op not in ops:
+                    ops.append(op)
     if created < 2:
         for _, v in ID_ATOMS:
             ops.append(["new_section", "a", None, {"oid": v}])
@@ -96,6 +102,12 @@ def oracle(pre, pool, op, outcome, cfg):
     return out or [(None, None, False)]
 
 
+# third start state: siblings that share one id (the public API allows it through oid= / keep_id),
+# so that "clearing the name falls back to the id" meets a sibling already named like that id
+START_SHARED_ID = [["append", OPS.D0, OPS.S0],
+                   ["new_section", "x", OPS.D0, {"oid": VALID}], ["new_section", "y", OPS.D0, {"oid": VALID}],
+                   ["new_property", "x", OPS.S0, {"oid": VALID}], ["new_property", "y", OPS.S0, {"oid": VALID}]]
+
 PLANS = {
     "quick": [{"level": "full"}, {"level": "full"}],
     "thorough": [{"level": "full"}, {"level": "full"}, {"level": "core"}],
@@ -110,7 +122,7 @@ def check(tier):
     plan = PLANS[tier]
     run.bounds = {"depth": len(plan), "alphabet_per_level": [c["level"] for c in plan],
                   "id_atoms": [n for n, _ in ID_ATOMS]}
-    hist.bfs(run, "checks.c04", [OPS.START_DETACHED, OPS.START_BUILT], plan)
+    hist.bfs(run, "checks.c04", [OPS.START_DETACHED, OPS.START_BUILT, START_SHARED_ID], plan)
     return run.finish(reproduce=lambda f: replay(f))
 
 
